@@ -38,7 +38,7 @@ for s in seeds:
             print(s, 'PATCH DOES NOT APPLY')
             continue
         t0 = time.time()
-        env = dict(os.environ, VERIF_REPO=wt)
+        env = dict(os.environ, VERIF_REPO=wt, VERIF_OUT=wt + '/.verif_out')
         r = subprocess.run(['./check', pid, '--tier', tier], cwd=ROOT, env=env,
                            capture_output=True, text=True)
         m = re.search(r'VIOLATION property=\S+ replay=\S+\n\s+shard=(\S+) clause=(\S+)', r.stdout)
